@@ -436,3 +436,189 @@ Theorem C02_lookup_family_refines_map :
   r = Some v0 /\ upd_holds (cur t) (cur t') k (if snd (g v0) then None else Some (fst (g v0))))).
 Proof. exact lookup_fn_good. Qed.
 Print Assumptions C02_lookup_family_refines_map.
+
+(* ---- refinement THROUGH deferred migration (LazyRefine.v): [lgood] = well-formed table with possibly pending stripes, [lholds] = abstract contents (current array + unmigrated stripes of the superseded array), [rep t m] = lholds is the map m ---- *)
+From LC Require Import LazyRefine.
+Theorem C02_deferred_state_is_reached :
+  forall (c : config) (hash : N -> N),
+  cfg_ok c ->
+  forall t : table,
+  lgood c hash t ->
+  bhp (cur t) + 1 < 60 ->
+  ~ maxed t (bhp (cur t) + 1) ->
+  kmax c <= hashsize (bhp (cur t)) ->
+  let t' := fast_double_body c hash false t (bhp (cur t) + 1) in
+  lgood c hash t' /\ ~ all_migrated t' /\ ~ good c hash t'.
+Proof. exact deferred_state_reached. Qed.
+Print Assumptions C02_deferred_state_is_reached.
+
+Theorem C02_every_normal_mode_operation_refines_the_map_through_deferred_migration :
+  forall (c : config) (hash : N -> N),
+  cfg_ok c ->
+  forall (fapply : fnk -> Z -> bool -> Z * bool) (w : world) (a : nat) (s : tslot)
+  (o : op) (w' : world) (r : out) (m : amap),
+  nothrow c = true ->
+  active s = false ->
+  normal_op o = true ->
+  lgood c hash (tb s) ->
+  rep c (tb s) m ->
+  op_pre c (tb s) o ->
+  step_some c hash fapply w a s o = (w', r) ->
+  lesc c hash (tb s) \/
+  (exists (t' : table) (m' : amap),
+  w' = put_t w a s t' /\
+  lgood c hash t' /\ lim_same (tb s) t' /\ rep c t' m' /\ op_spec c fapply (tb s) m o r m').
+Proof. exact normal_mode_op_refines. Qed.
+Print Assumptions C02_every_normal_mode_operation_refines_the_map_through_deferred_migration.
+
+Theorem C02_lookup_family_through_deferred_migration :
+  forall (c : config) (hash : N -> N),
+  cfg_ok c ->
+  forall (t : table) (k : N) (g : Z -> Z * bool),
+  lgood c hash t ->
+  forall (t' : table) (r : option Z),
+  lookup_fn c hash false t k g = (t', r) ->
+  lgood c hash t' /\
+  lim_same t t' /\
+  bhp (cur t') = bhp (cur t) /\
+  ((forall v : Z, ~ lholds c t k v) /\ r = None /\ levolves c hash t t' \/
+  (exists v0 : Z,
+  lholds c t k v0 /\ r = Some v0 /\ lupd c t t' k (if snd (g v0) then None else Some (fst (g v0))))).
+Proof. exact lookup_fn_lgood. Qed.
+Print Assumptions C02_lookup_family_through_deferred_migration.
+
+Theorem C02_insert_family_through_deferred_migration :
+  forall (c : config) (hash : N -> N),
+  cfg_ok c ->
+  forall (t : table) (k : N) (v : Z) (g : Z -> bool -> option (Z * bool)),
+  nothrow c = true ->
+  lgood c hash t ->
+  forall (t' : table) (r : exn + bool * list rv * (N * N)),
+  uprase_gen c hash false t k v g = (t', r) ->
+  (forall v0 : Z,
+  lholds c t k v0 ->
+  exists b s : N,
+  r = inr (false, log_of g v0 false, (b, s)) /\
+  lgood c hash t' /\
+  lim_same t t' /\
+  bhp (cur t') = bhp (cur t) /\
+  lupd c t t' k (final_of g v0 false) /\
+  (forall vf : Z,
+  final_of g v0 false = Some vf ->
+  exists e : entry, bget (cur t') b s = Some e /\ ekey e = k /\ eval e = vf)) /\
+  ((forall v0 : Z, ~ lholds c t k v0) ->
+  lesc c hash t \/
+  (exists e : exn, r = inl e /\ exn_ok c true t t' e /\ levolves c hash t t') \/
+  (exists b s : N,
+  r = inr (true, log_of g v true, (b, s)) /\
+  lgood c hash t' /\
+  lim_same t t' /\
+  bhp (cur t) <= bhp (cur t') /\
+  lupd c t t' k (final_of g v true) /\
+  (forall vf : Z,
+  final_of g v true = Some vf ->
+  exists e : entry, bget (cur t') b s = Some e /\ ekey e = k /\ eval e = vf))).
+Proof. exact uprase_gen_lgood. Qed.
+Print Assumptions C02_insert_family_through_deferred_migration.
+
+Theorem C02_doubling_of_a_table_with_pending_stripes :
+  forall (c : config) (hash : N -> N),
+  cfg_ok c ->
+  forall t : table,
+  nothrow c = true ->
+  lgood c hash t ->
+  let hp := bhp (cur t) in
+  (maxed t (hp + 1) -> cuckoo_fast_double c hash false t hp = (t, inl EMaxHashpower)) /\
+  (~ maxed t (hp + 1) ->
+  lf_lt_mlf c t = true -> cuckoo_fast_double c hash false t hp = (t, inl ELoadFactorTooLow)) /\
+  (~ maxed t (hp + 1) ->
+  lf_lt_mlf c t = false ->
+  cuckoo_fast_double c hash false t hp = (fast_double_body c hash false t (hp + 1), inr St_ok) /\
+  (hp + 1 < 60 ->
+  let t' := fast_double_body c hash false t (hp + 1) in
+  lgood c hash t' /\
+  bhp (cur t') = hp + 1 /\
+  (forall (k : N) (v : Z), lholds c t' k v <-> lholds c t k v) /\
+  lim_same t t' /\ rc t' = wrap64 (rc t + 1))).
+Proof. exact cuckoo_fast_double_lgood. Qed.
+Print Assumptions C02_doubling_of_a_table_with_pending_stripes.
+
+Theorem C02_rehash_through_deferred_migration :
+  forall (c : config) (hash : N -> N),
+  cfg_ok c ->
+  forall (t : table) (n : N),
+  lgood c hash t ->
+  limC c (mhp t) ->
+  forall (t' : table) (r : exn + bool),
+  cuckoo_rehash c hash false t n = (t', r) ->
+  (r = inr false <-> n = bhp (cur t)) /\
+  (r = inr false -> t' = t) /\
+  (r = inr true ->
+  good c hash t' /\
+  (forall (k : N) (v : Z), holds (cur t') k v <-> lholds c t k v) /\
+  lim_same t t' /\ n <= bhp (cur t') /\ rc t' = wrap64 (rc t + 1) /\ ~ maxed t n) /\
+  (forall e : exn,
+  r = inl e ->
+  n <> bhp (cur t) /\
+  exn_ok0 false t e /\
+  e <> ELoadFactorTooLow /\
+  (maxed t n -> t' = t /\ e = EMaxHashpower) /\
+  (destructive c = false -> levolves c hash t t' /\ bhp (cur t') = bhp (cur t))).
+Proof. exact cuckoo_rehash_lgood. Qed.
+Print Assumptions C02_rehash_through_deferred_migration.
+
+Theorem C02_reserve_through_deferred_migration :
+  forall (c : config) (hash : N -> N),
+  cfg_ok c ->
+  forall (t : table) (n : N),
+  lgood c hash t ->
+  limC c (mhp t) ->
+  forall (t' : table) (r : exn + bool),
+  cuckoo_reserve c hash false t n = (t', r) ->
+  let new_hp := reserve_calc c n in
+  (r = inr false <-> new_hp = bhp (cur t)) /\
+  (r = inr false -> t' = t) /\
+  (r = inr true ->
+  good c hash t' /\
+  (forall (k : N) (v : Z), holds (cur t') k v <-> lholds c t k v) /\
+  lim_same t t' /\
+  new_hp <= bhp (cur t') /\
+  rc t' = wrap64 (rc t + 1) /\
+  ~ maxed t new_hp /\ (n + spb c < 2 ^ 64 -> n <= 2 ^ bhp (cur t') * spb c)) /\
+  (forall e : exn,
+  r = inl e ->
+  new_hp <> bhp (cur t) /\
+  exn_ok0 false t e /\
+  e <> ELoadFactorTooLow /\
+  (maxed t new_hp -> t' = t /\ e = EMaxHashpower) /\
+  (destructive c = false -> levolves c hash t t' /\ bhp (cur t') = bhp (cur t))).
+Proof. exact cuckoo_reserve_lgood. Qed.
+Print Assumptions C02_reserve_through_deferred_migration.
+
+Theorem C02_clear_through_deferred_migration :
+  forall (c : config) (hash : N -> N) (t : table),
+  lgood c hash t ->
+  good c hash (cuckoo_clear t) /\
+  (forall (k : N) (v : Z), ~ lholds c (cuckoo_clear t) k v) /\
+  lim_same t (cuckoo_clear t) /\
+  bhp (cur (cuckoo_clear t)) = bhp (cur t) /\
+  tsize (cuckoo_clear t) = 0 /\ bdead (old (cuckoo_clear t)) = true /\ nrem (cuckoo_clear t) = 0.
+Proof. exact cuckoo_clear_lgood. Qed.
+Print Assumptions C02_clear_through_deferred_migration.
+
+Theorem C02_lock_table_finishes_migration_refinement :
+  forall (c : config) (hash : N -> N),
+  cfg_ok c ->
+  forall t : table,
+  lgood c hash t ->
+  good c hash (rehash_with_workers c hash t) /\
+  (forall (k : N) (v : Z), holds (cur (rehash_with_workers c hash t)) k v <-> lholds c t k v) /\
+  bhp (cur (rehash_with_workers c hash t)) = bhp (cur t) /\
+  lim_same t (rehash_with_workers c hash t) /\
+  rc (rehash_with_workers c hash t) = rc t /\
+  nrem (rehash_with_workers c hash t) = 0 /\
+  length (cur_locks (rehash_with_workers c hash t)) = length (cur_locks t) /\
+  tsize (rehash_with_workers c hash t) = tsize t /\
+  lf_lt_mlf c (rehash_with_workers c hash t) = lf_lt_mlf c t.
+Proof. exact rww_lgood. Qed.
+Print Assumptions C02_lock_table_finishes_migration_refinement.
